@@ -400,7 +400,7 @@ pub fn load_replay(path: &str) -> Value {
 /// `Report::finish` for a replay: prints the verdict lines but keeps the
 /// evidence file of the last full run (a replay is not coverage).
 pub fn finish_replay(report: &engine::Report) -> i32 {
-    let path = format!("{}/evidence/{}.json", engine::VERIF_ROOT, report.property);
+    let path = format!("{}/evidence/{}.json", engine::out_root(), report.property);
     let old = std::fs::read(&path).ok();
     let rc = report.finish();
     if let Some(o) = old {
